@@ -133,6 +133,10 @@ type F struct {
 	// Cmp2/Val2: a second operator in the same block, e.g. {_gt: 1, _lt: 5}.
 	Cmp2 string `json:"cmp2,omitempty"`
 	Val2 string `json:"val2,omitempty"`
+	// FromDoc > 0: the operand Val is replaced at run time by the value that document
+	// (FromDoc-1 modulo the documents) holds in the field, when it holds a usable scalar
+	// (so that bounds hit stored values exactly whatever the history did).
+	FromDoc int `json:"from_doc,omitempty"`
 }
 
 // Ord is one order key.
